@@ -4,6 +4,7 @@ pub mod c01;
 pub mod c02;
 pub mod c03;
 pub mod c04;
+pub mod c05;
 pub mod c06;
 pub mod c07;
 pub mod c09;
@@ -24,6 +25,7 @@ pub fn get(id: &str) -> Option<Property> {
         "C02" => c02::property(),
         "C03" => c03::property(),
         "C04" => c04::property(),
+        "C05" => c05::property(),
         "C06" => c06::property(),
         "C07" => c07::property(),
         "C09" => c09::property(),
